@@ -1317,3 +1317,131 @@ Lemma invalidate_live_iterator_refuted :
   (exists th', nth_error (thr (exec [1;2;3] true false (repeat 0%nat 1) iv_state)) 0 = Some th' /\
                t_res th' = Some (Raise ETypeError)).
 Proof. split; eexists; (split; [vm_compute; reflexivity | reflexivity]). Qed.
+
+(* ------------------------------------------------------------------------------------------ *)
+(* iterate, let every operation finish, MUTATE (_invalidate_cache), iterate again.
+   The threads of the first phase are finished (PDone: they never move again and hold no lock); the
+   operations started after the mutator are new threads appended to the state.  InvFrom k is the invariant
+   for the NEW sequence on the threads from index k on. *)
+
+Definition InvFrom (k : nat) (seq : list Z) (st : state) : Prop :=
+  shared_inv seq (sh st) /\ lock_inv st /\
+  (forall t th, nth_error (thr st) t = Some th -> (t < k)%nat -> t_pc th = PDone) /\
+  (forall t th, nth_error (thr st) t = Some th -> (k <= t)%nat -> thread_inv seq (sh st) th).
+
+Lemma step_invfrom : forall k seq st t st',
+  InvFrom k seq st -> step seq true false st t = Some st' -> InvFrom k seq st'.
+Proof.
+  intros k seq st t st' (HS & (HL1 & HL2) & HD & HT) Hstep. unfold step in Hstep.
+  destruct (nth_error (thr st) t) as [th|] eqn:Et; [|discriminate].
+  destruct (step_thread seq true false (sh st) t th) as [[s' th']|] eqn:Es; [|discriminate].
+  injection Hstep as <-.
+  assert (Hk : (k <= t)%nat).
+  { destruct (Nat.le_gt_cases k t) as [H|H]; [exact H|]. exfalso.
+    pose proof (HD _ _ Et H) as Hp. unfold step_thread in Es. rewrite Hp in Es. discriminate. }
+  destruct (step_thread_ok seq _ _ _ _ _ HS (HT _ _ Et Hk) Es) as (HS' & Hle & HT').
+  pose proof (step_thread_lock seq _ _ _ _ _ Es) as HK.
+  unfold InvFrom. cbn [sh thr]. split; [exact HS'|]. split; [|split].
+  - unfold lock_inv. cbn [sh thr]. split.
+    + intros u thu Hu Hcu. destruct (Nat.eq_dec t u) as [Eq|Ne]; [subst u|].
+      * rewrite (nth_error_upd_same _ _ _ _ _ Et) in Hu. injection Hu as <-.
+        destruct HK as [[E1 E2]|[(E1 & E2 & E3 & E4)|(E1 & E2 & E3)]].
+        -- rewrite E1. apply (HL1 _ _ Et). rewrite <- E2. exact Hcu.
+        -- exact E3.
+        -- congruence.
+      * rewrite nth_error_upd_other in Hu by exact Ne.
+        pose proof (HL1 _ _ Hu Hcu) as Lu.
+        destruct HK as [[E1 E2]|[(E1 & E2 & E3 & E4)|(E1 & E2 & E3)]].
+        -- rewrite E1. exact Lu.
+        -- congruence.
+        -- pose proof (HL1 _ _ Et E1). congruence.
+    + intros u Lu. destruct HK as [[E1 E2]|[(E1 & E2 & E3 & E4)|(E1 & E2 & E3)]].
+      * rewrite E1 in Lu. destruct (HL2 _ Lu) as (thu & Hu & Hcu).
+        destruct (Nat.eq_dec t u) as [Eq|Ne]; [subst u|].
+        -- exists th'. split; [apply (nth_error_upd_same _ _ _ _ _ Et)|].
+           rewrite Et in Hu. injection Hu as <-. congruence.
+        -- exists thu. split; [rewrite nth_error_upd_other by exact Ne; exact Hu | exact Hcu].
+      * rewrite E3 in Lu. injection Lu as <-. exists th'.
+        split; [apply (nth_error_upd_same _ _ _ _ _ Et) | exact E4].
+      * congruence.
+  - intros u thu Hu Hlt. destruct (Nat.eq_dec t u) as [Eq|Ne]; [subst u; lia|].
+    rewrite nth_error_upd_other in Hu by exact Ne. apply (HD _ _ Hu Hlt).
+  - intros u thu Hu Hge. destruct (Nat.eq_dec t u) as [Eq|Ne]; [subst u|].
+    + rewrite (nth_error_upd_same _ _ _ _ _ Et) in Hu. injection Hu as <-. exact HT'.
+    + rewrite nth_error_upd_other in Hu by exact Ne.
+      apply (thread_inv_mono seq _ _ _ Hle). apply (HT _ _ Hu Hge).
+Qed.
+
+Lemma exec_invfrom : forall k seq sched st, InvFrom k seq st -> InvFrom k seq (exec seq true false sched st).
+Proof.
+  intros k seq. induction sched as [|t r IH]; intros st H; cbn [exec]; [exact H|].
+  apply IH. destruct (step seq true false st t) eqn:E; [eapply step_invfrom; eauto | exact H].
+Qed.
+
+Lemma step_length : forall seq st t st', step seq true false st t = Some st' -> length (thr st') = length (thr st).
+Proof.
+  intros seq st t st' H. unfold step in H. destruct (nth_error (thr st) t); [|discriminate].
+  destruct (step_thread seq true false (sh st) t t0) as [[s' th']|]; [|discriminate].
+  injection H as <-. cbn [thr]. apply length_upd.
+Qed.
+
+Lemma exec_length : forall seq sched st, length (thr (exec seq true false sched st)) = length (thr st).
+Proof.
+  intros seq. induction sched as [|t r IH]; intros st; cbn [exec]; [reflexivity|].
+  destruct (step seq true false st t) eqn:E; rewrite IH; [apply (step_length _ _ _ _ E) | reflexivity].
+Qed.
+
+Lemma all_done_true : forall st t th, all_done st = true -> nth_error (thr st) t = Some th -> t_pc th = PDone.
+Proof.
+  intros st t th H Ht. unfold all_done in H. rewrite forallb_forall in H.
+  specialize (H th (nth_error_In _ _ Ht)). destruct (t_pc th); try discriminate. reflexivity.
+Qed.
+
+(* the state after the mutator, with the operations started afterwards *)
+Definition after_invalidate (st : state) (ops2 : list op) : state :=
+  St (sh (invalidate st)) (thr st ++ map init_thread ops2).
+
+Theorem invalidate_then_iterate : forall seq seq' ops sched ops2 sched2,
+  all_done (reach seq ops sched) = true ->
+  let st := exec seq' true false sched2 (after_invalidate (reach seq ops sched) ops2) in
+  InvFrom (length ops) seq' st /\
+  forall t th, (length ops <= t)%nat -> nth_error (thr st) t = Some th ->
+    is_prefix (t_out th) seq' /\
+    (t_pc th = PDone -> exists r, t_res th = Some r /\ done_ok seq' (t_op th) r).
+Proof.
+  intros seq seq' ops sched ops2 sched2 Hd st.
+  assert (Hlen : length (thr (reach seq ops sched)) = length ops).
+  { unfold reach. rewrite exec_length. unfold init. cbn [thr]. apply map_length. }
+  assert (H0 : InvFrom (length ops) seq' (after_invalidate (reach seq ops sched) ops2)).
+  { unfold InvFrom, after_invalidate, invalidate. cbn [sh thr]. split; [|split; [|split]].
+    - unfold shared_inv. cbn [cache complete sgen gpos gdone lock lenp]. repeat split; try discriminate; try lia.
+    - split; cbn [sh thr lock].
+      + intros t th H Hc. exfalso. destruct (Nat.lt_ge_cases t (length ops)) as [Hl|Hl].
+        * rewrite nth_error_app1 in H by lia. rewrite (all_done_true _ _ _ Hd H) in Hc. discriminate.
+        * rewrite nth_error_app2 in H by lia. rewrite nth_error_map in H.
+          destruct (nth_error ops2 (t - length (thr (reach seq ops sched)))) as [o|]; [|discriminate].
+          injection H as <-. unfold init_thread in Hc. cbn [t_pc] in Hc. destruct o; discriminate.
+      + intros t H. discriminate.
+    - intros t th H Hl. rewrite nth_error_app1 in H by lia. apply (all_done_true _ _ _ Hd H).
+    - intros t th H Hl. rewrite nth_error_app2 in H by lia. rewrite nth_error_map in H.
+      destruct (nth_error ops2 (t - length (thr (reach seq ops sched)))) as [o|]; [|discriminate].
+      injection H as <-. unfold init_thread. split; [reflexivity|]. cbn [t_pc t_op t_i t_gen t_out t_res].
+      destruct o; cbn [start_pc]; repeat split. }
+  pose proof (exec_invfrom _ _ sched2 _ H0) as HI. fold st in HI. split; [exact HI|].
+  intros t th Hl Ht. destruct HI as (_ & _ & _ & HT). destruct (HT _ _ Ht Hl) as [Hp Hpc].
+  split; [exact Hp|]. intros E. rewrite E in Hpc. exact Hpc.
+Qed.
+
+(* count(): in every reachable state of the transition system a finished count() returned the NUMBER OF
+   ITEMS THE GENERATOR YIELDED (|seq|) -- the published _len is the generator's own counter at exhaustion
+   (PAdvance / PGenPub of the model), not a definition; no hypothesis on seq *)
+Theorem count_returns_length : forall seq ops sched t th,
+  nth_error (thr (reach seq ops sched)) t = Some th -> t_op th = OCount -> t_pc th = PDone ->
+  t_res th = Some (Ret [Z.of_nat (length seq)]).
+Proof.
+  intros seq ops sched t th H Ho Hd.
+  destruct (observes_uncached seq ops sched t th H) as (_ & _ & K).
+  destruct (K Hd) as (r & Hr & [E|(x & Eo & _)]).
+  - rewrite Hr, E, Ho. reflexivity.
+  - congruence.
+Qed.
